@@ -121,6 +121,19 @@ STRENGTHENED = {
     "C19-w6m1": "missed at first; the laws-only histories run with warnings turned into errors every other time, assignments from the universe side included",
     "C20-w6m1": "missed at first; a fresh interpreter whose first use of the library is the seeded call runs it twice per seed",
     "C20-w6m2": "missed at first; counts 1001 / 1500 / 2049 judged directly",
+    "C01-w7m2": "missed at first (the harness read `links` after every call, which heals the cached view); BLIND histories: several calls with nothing read in between, one look at the end",
+    "C02-w7m1": "missed at first; probe: a universe grown member by member to 4400 (some members share a uid), at every size two members out, two in, the removed ones re-added from their side, redundant re-adds — against a list model",
+    "C02-w7m2": "missed at first; same probe (every size is crossed downwards and upwards)",
+    "C03-w7m1": "missed at first; in the 140-link hub a parallel link leaves one end and comes back (different relative order in the two ends' lists), then `link_from_to(dontdup=True)` from either side",
+    "C05-w7m1": "missed at first; probe: 300 long-lived filters on one vertex, then mutations with the flag switched off and on in between, every cached answer compared with a recomputation",
+    "C05-w7m2": "missed at first; same probe, preceded by a builder call that fails half-way (a lazily parsed adjacency hitting a malformed record)",
+    "C11-w7m2": "missed at first; malformed matrices with BOTH defects (side array too short and a ragged row beyond it)",
+    "C12-w7m2": "missed at first; exchange row `UniverseLaws(edge_whitelist=empty dict)` (table now 114 rows); an observer that chokes on the caller's later edits counts as a leak",
+    "C13-w7m1": "missed at first; every third fault index raises an exception that is NOT an `Exception` (Ctrl-C during a slow callback)",
+    "C16-w7m1": "missed at first; render kind `pad`: labels ending in `, `, in a blank, in line breaks",
+    "C16-w7m2": "missed at first; same kind",
+    "C19-w7m2": "missed at first; rule table 4 = an EMPTY edge_whitelist whose dict the caller fills in afterwards",
+    "C20-w7m1": "missed at first; counts 4300 / 4600 with the default connectivity judged directly",
 }
 _EQ = ("needs graph objects (vertices / law sets) that override `__eq__`/`__hash__` so that distinct objects compare equal; the unchanged "
        "code itself uses == membership throughout, so the identity reading of the properties presupposes default equality (§6, §11.1)")
@@ -129,6 +142,12 @@ _FX = ("needs a filter callback that MUTATES the graph while it is being consult
 _OV = ("needs a user subclass that OVERRIDES a structural method of the library (`add_to_link`, `add_vertex`, `vertices`) so that it refuses "
        "or raises, or an ill-typed argument: the model and the statements assume the library's own methods and well-typed arguments (§6)")
 MISSED_NOTE = {
+    "C03-w7m2": "known gap: needs a LINK filed as a member of a universe (`uni.add_vertex(link)`); universes of the pool hold vertices only",
+    "C04-w7m2": "known gap: needs a user link class deriving from an UNKNOWN two-ended class and from DirectedEdge, met after an instance of that unknown class (the find_links twin C09-w7m2 is caught)",
+    "C08-w7m1": "out of reach: needs a DFS path within 64 frames of the interpreter's recursion limit (936 deep), where the unchanged code itself is about to raise RecursionError under the harness's own frames",
+    "C10-w7m2": "known gap: needs `dumps(obj, recurse=True)` of a `__main__` function using a `__main__` global, loaded in a fresh interpreter (the checks call dumps with its defaults)",
+    "C13-w7m2": "known gap: needs a nested universe whose `laws` nobody has read yet (the adapter registers every universe's law set when it is created)",
+    "C18-w7m1": "out of reach: needs a constructor that constructs its own class, which on the unchanged code does not terminate",
     "C07-w6m2": "out of reach of the quick tier: needs a pending DFS stack above 131072 entries (the complete graph on 400 vertices in shuffled order, 80 000 links)",
     "C14-w6m2": "known gap: needs two vertex classes with the same `__name__` (the pool's classes are distinctly named; the model keys stereotypes by class)",
     "C17-w6m2": "known gap: needs a constructor keyword named like a parameter that the change itself introduces (`missing_ok`)",
@@ -141,6 +160,7 @@ OUT_OF_SCOPE = {
     "C05-w5m1": _OV, "C06-w5m2": _OV, "C19-w5m2": _OV,
     "C01-w3m2": _EQ, "C03-w3m1": _EQ, "C08-w3m2": _EQ, "C14-w3m1": _EQ, "C15-w3m2": _EQ, "C19-w3m1": _EQ,
     "C04-w3m2": _FX, "C09-w3m1": _FX,
+    "C15-w7m2": "needs the interpreter started with -O (pyvis' own asserts compiled out): the checks run under the interpreter they are given",
     "C20-w3m2": "needs a process that has created a million vertices (a bound on a class-level table): out of reach of a check that runs in minutes",
     "C03-w2m1": "needs vertices that override `__eq__`/`__hash__`; the unchanged code itself uses `in` / `remove` (==) on its vertex lists throughout, "
                 "so the statement's identity reading only makes sense for default equality — a stated assumption of the model (DESIGN §6)",
